@@ -160,8 +160,13 @@ Definition x_arith (o : binop) (t s1 s2 : xtemp) : list xcode :=
   end.
 Definition x_jump (t : xtemp) : list xcode :=
   match t with XR r => [JMP r] | XS p => [MOVL TEMP STACK (stack_offset p); JMP TEMP] end.
+Definition fits_i32 (i : Z) : bool := (Z.leb (- 2147483648) i && Z.leb i 2147483647)%Z.
 Definition x_load_immediate (t : xtemp) (i : Z) : list xcode :=
-  match t with XR r => [MOVI r i] | XS p => [MOVIM STACK (stack_offset p) i] end.
+  match t with
+  | XR r => [MOVI r i]
+  | XS p => if fits_i32 i then [MOVIM STACK (stack_offset p) i]
+            else [MOVI TEMP i; MOVS TEMP STACK (stack_offset p)]
+  end.
 Definition x_load_label (t : xtemp) (l : string) : list xcode :=
   match t with XR r => [LEAL r l] | XS p => [LEAL TEMP l; MOVS TEMP STACK (stack_offset p)] end.
 Definition x_add_and_jump (t : xtemp) (i : Z) : list xcode :=
